@@ -1,6 +1,8 @@
 //! vharness: scripted environment, op language, interpreter, oracles and engines for deciding the
 //! listed properties of futures-buffered by property-based testing and fuzzing (see /verif/DESIGN.md).
 pub mod alloc;
+pub mod decode;
+pub mod fuzzrun;
 pub mod engine;
 pub mod gen;
 pub mod interp;
